@@ -36,7 +36,7 @@ pub fn f1_step<const M: usize, const TOTAL: usize, const CUT: bool>() {
         let ptr_old = c.ptr0 as usize;
         let foot = c.footer as usize;
         let cap_old = bump.chunk_capacity();
-        assert!(cap_old == ptr_old - data, "[C18] chunk_capacity is not finger minus chunk start");
+        vassert!(cap_old == ptr_old - data, "NEVER: [C18] chunk_capacity is not finger minus chunk start");
 
         // Probe bytes at CONCRETE offsets (the two ends of the backing object's usable
         // part) holding symbolic values.  A symbolic-offset probe was measured: it makes
@@ -60,37 +60,37 @@ pub fn f1_step<const M: usize, const TOTAL: usize, const CUT: bool>() {
         let s1 = snap(c.footer);
         let ptr_new = c.cur_ptr() as usize;
         // footer bookkeeping other than the finger is never touched, nothing freed
-        assert!(s0 == s1, "[C01,C08,C09] footer fields other than the finger changed");
-        assert!(NDEALLOC == 0, "[C03] a &self operation gave memory back");
-        assert!(bump.allocated_bytes() == ab0, "[C08] accounting changed without a chunk change");
-        assert!(bump.allocation_limit() == limit, "[C07] limit changed by an allocation");
-        assert!(empty_is_pristine(), "[C20] shared static sentinel modified");
+        vassert!(s0 == s1, "NEVER: [C01,C08,C09] footer fields other than the finger changed");
+        vassert!(NDEALLOC == 0, "NEVER: [C03] a &self operation gave memory back");
+        vassert!(bump.allocated_bytes() == ab0, "NEVER: [C08] accounting changed without a chunk change");
+        vassert!(bump.allocation_limit() == limit, "NEVER: [C07] limit changed by an allocation");
+        vassert!(empty_is_pristine(), "NEVER: [C20] shared static sentinel modified");
         if has_probe {
-            assert!(*c.base.add(end - 1) == pv, "[C02] live byte changed");
+            vassert!(*c.base.add(end - 1) == pv, "NEVER: [C02] live byte changed");
         }
         match res {
             Ok(p) => {
                 let p = p.as_ptr() as usize;
-                assert!(p != 0, "[C01] null pointer returned");
-                assert!(NLOG == 0, "[C07,C18] success although the global allocator refused");
+                vassert!(p != 0, "NEVER: [C01] null pointer returned");
+                vassert!(NLOG == 0, "NEVER: [C07,C18] success although the global allocator refused");
                 // C01: inside the former free region => inside the chunk, below the
                 // footer, disjoint from every live block
-                assert!(p >= data, "[C01] block starts below the chunk");
-                assert!(size <= ptr_old - p, "[C01] block reaches into the allocated region (overlaps a live block or the footer)");
-                assert!(p <= ptr_old, "[C01] block above the old finger");
+                vassert!(p >= data, "NEVER: [C01] block starts below the chunk");
+                vassert!(size <= ptr_old - p, "NEVER: [C01] block reaches into the allocated region (overlaps a live block or the footer)");
+                vassert!(p <= ptr_old, "NEVER: [C01] block above the old finger");
                 // C04
-                assert!(p & (align - 1) == 0, "[C04] requested alignment not honoured");
-                assert!(p & (M - 1) == 0, "[C04] minimum alignment not honoured");
+                vassert!(p & (align - 1) == 0, "NEVER: [C04] requested alignment not honoured");
+                vassert!(p & (M - 1) == 0, "NEVER: [C04] minimum alignment not honoured");
                 // RI re-established: finger at or below the new block, in the chunk, M-aligned
-                assert!(ptr_new >= data && ptr_new <= p, "[C01] finger not at or below the new block");
-                assert!(ptr_new & (M - 1) == 0, "[C04] finger lost the minimum alignment");
+                vassert!(ptr_new >= data && ptr_new <= p, "NEVER: [C01] finger not at or below the new block");
+                vassert!(ptr_new & (M - 1) == 0, "NEVER: [C04] finger lost the minimum alignment");
                 // C18 lemma 2: exact consumption for uniform requests
                 if align <= M && size & (M - 1) == 0 {
-                    assert!(bump.chunk_capacity() == cap_old - size, "[C18] capacity not lowered by exactly size");
+                    vassert!(bump.chunk_capacity() == cap_old - size, "NEVER: [C18] capacity not lowered by exactly size");
                 }
                 // C10 lemma F8a: no padding for uniform requests
                 if align >= M && align <= 16 && size & (align - 1) == 0 && ptr_old & (align - 1) == 0 {
-                    assert!(p == ptr_old - size, "[C10] padding inserted between uniform objects");
+                    vassert!(p == ptr_old - size, "NEVER: [C10] padding inserted between uniform objects");
                 }
                 kani::cover!(align >= 256 && size > 0, "REACH: over-aligned non-empty success");
                 kani::cover!(align >= 64 && data & (align - 1) != 0, "REACH: over-aligned success on a chunk base that lacks that alignment");
@@ -102,9 +102,9 @@ pub fn f1_step<const M: usize, const TOTAL: usize, const CUT: bool>() {
             }
             Err(_) => {
                 // C09: failure changes nothing
-                assert!(ptr_new == ptr_old, "[C09] finger moved by a failed request");
+                vassert!(ptr_new == ptr_old, "NEVER: [C09] finger moved by a failed request");
                 // C07/C18: a request that fits succeeds whatever the limit
-                assert!(!fits::<M>(size, align, cap_old), "[C07,C09,C18] a request that fits was refused");
+                vassert!(!fits::<M>(size, align, cap_old), "NEVER: [C07,C09,C18] a request that fits was refused");
                 kani::cover!(size == 0, "REACH: [err] ZST refused (over-aligned below chunk start)");
                 kani::cover!(NLOG > 1, "REACH: [err] more than one size tried");
                 kani::cover!(limit.is_some() && NLOG == 0, "REACH: [err] limit filtered every candidate");
@@ -113,11 +113,11 @@ pub fn f1_step<const M: usize, const TOTAL: usize, const CUT: bool>() {
                 let i: usize = kani::any();
                 if i < NLOG && i < LOGN {
                 let (rs, ra) = LOG[i];
-                assert!(NLOG <= LOGN, "[C09] more requests than the log holds");
-                assert!(ra >= 16 && ra >= align && ra >= M, "[C04] chunk alignment floor");
-                assert!(rs >= FOOTER_SIZE && rs - FOOTER_SIZE >= size, "[C01] chunk smaller than the request");
+                vassert!(NLOG <= LOGN, "NEVER: [C09] more requests than the log holds");
+                vassert!(ra >= 16 && ra >= align && ra >= M, "NEVER: [C04] chunk alignment floor");
+                vassert!(rs >= FOOTER_SIZE && rs - FOOTER_SIZE >= size, "NEVER: [C01] chunk smaller than the request");
                 if let Some(l) = limit {
-                    assert!(ab0 <= l && rs - FOOTER_SIZE <= l - ab0, "[C07] requested chunk exceeds the limit");
+                    vassert!(ab0 <= l && rs - FOOTER_SIZE <= l - ab0, "NEVER: [C07] requested chunk exceeds the limit");
                 }
                 }
             }
